@@ -12,7 +12,7 @@ Num(n) == [k |-> "num", n |-> n]
 Sum(t) == [k |-> "call", f |-> "SUM", args |-> <<t>>]
 
 Bases == {"T1", "A3", "S4", "Q6", "C7"}
-Seconds == {"none", "from:T2", "from:A1", "join:T2", "join:A1", "using:T2", "cross:T5", "join:Q6"}
+Seconds == {"none", "from:T2", "from:A1", "join:T2", "join:A1", "using:T2", "using:A1", "using:Q6", "cross:T5", "join:Q6"}
 Kinds == {"select", "insertselect", "insertvalues", "update", "delete"}
 
 VARIABLES b, hist, stage, kind, scope
@@ -38,7 +38,7 @@ Second == /\ stage = 1
           /\ \E s \in Seconds :
                 LET base == CHOOSE x \in scope : TRUE
                     t == IF s = "none" THEN "" ELSE IF s \in {"from:T2", "join:T2", "using:T2"} THEN "T2"
-                         ELSE IF s \in {"from:A1", "join:A1"} THEN "A1" ELSE IF s = "cross:T5" THEN "T5" ELSE "Q6" IN
+                         ELSE IF s \in {"from:A1", "join:A1", "using:A1"} THEN "A1" ELSE IF s = "cross:T5" THEN "T5" ELSE "Q6" IN
                 /\ (t # "" => t \notin scope)
                 /\ (kind = "insertvalues" => s = "none")
                 /\ scope' = IF t = "" THEN scope ELSE scope \cup {t}
@@ -46,7 +46,7 @@ Second == /\ stage = 1
                    ELSE IF s \in {"from:T2", "from:A1"} THEN Do([m |-> "from_", src |-> t])
                    ELSE IF s \in {"join:T2", "join:A1", "join:Q6"} THEN
                         Do([m |-> "join", item |-> t, how |-> "", kind |-> "on", crit |-> Cmp(Fld(base, "a"), Fld(t, "a")), cols |-> <<>>])
-                   ELSE IF s = "using:T2" THEN Do([m |-> "join", item |-> t, how |-> "LEFT", kind |-> "using", crit |-> Num("0"), cols |-> <<"a">>])
+                   ELSE IF s \in {"using:T2", "using:A1", "using:Q6"} THEN Do([m |-> "join", item |-> t, how |-> "LEFT", kind |-> "using", crit |-> Num("0"), cols |-> <<"a">>])
                    ELSE Do([m |-> "join", item |-> t, how |-> "", kind |-> "cross", crit |-> Num("0"), cols |-> <<>>])
           /\ stage' = 2 /\ UNCHANGED kind
 
